@@ -566,8 +566,8 @@ pub fn rand_cfg(rng: &mut Rng, max_files: u64, max_len: usize) -> Cfg {
         0 => None,
         1 => Some(("none".into(), None)),
         2 => Some(("gzip".into(), if rng.chance(1, 2) { Some(rng.range(0, 9)) } else { None })),
-        3 => Some(("zstd".into(), if rng.chance(1, 2) { Some(rng.range(1, 19)) } else { None })),
-        4 => Some(("xz".into(), if rng.chance(1, 2) { Some(rng.range(0, 6)) } else { None })),
+        3 => Some(("zstd".into(), if rng.chance(1, 2) { Some(if rng.chance(1, 6) { *rng.pick(&[20i64, 21, 22]) } else { rng.range(1, 19) }) } else { None })),
+        4 => Some(("xz".into(), if rng.chance(1, 2) { Some(if rng.chance(1, 6) { *rng.pick(&[7i64, 8, 9]) } else { rng.range(0, 6) }) } else { None })),
         5 => Some(("bzip2".into(), if rng.chance(1, 2) { Some(rng.range(1, 9)) } else { None })),
         _ => Some(("gzip".into(), Some(1))),
     };
